@@ -77,11 +77,13 @@ func init() {
 	})
 	register(&Property{
 		ID: "C10",
-		Explanation: "Decides three shapes behind 'the reported counts and sizes agree with the repository', not the arithmetic and not the state of the index after prune: (prune-stats-pairing) while packInfoFromIndex and decidePackAction classify blobs and packs, every update of a blob counter stats.Blobs.X (Used, Unused, Duplicate, Remove, Repack, Repackrm) sits in one basic block with an update of the byte counter stats.Size.X in the same direction, and a term read from a pack's ...Blobs field on the count side is the ...Size field of the same kind (used/unused) on the size side; a pack is inserted into the remove or ignore set only in a block that raises Blobs.Remove and Size.Remove, into the repack set only where Blobs.Repack, Size.Repack, Blobs.Repackrm and Size.Repackrm are raised; the reported numbers of unreferenced packs, packs to repack and packs to remove are len() of the very sets the returned PrunePlan carries and Execute acts on. Not decided: that after prune the index holds no unreachable blob, no duplicate, no pack without entry and no entry for a missing pack (C09 decides the orderings of that sequence), the totals derived by arithmetic (Total, Remain, RemoveTotal, RemainUnused), sizes reported by the backend listing, and the statistics printed by cmd_prune. Planned as not applicable in DESIGN section 4; claimed at level 'other' for exactly these clauses.",
+		Explanation: "Decides three shapes behind 'the reported counts and sizes agree with the repository', not the arithmetic and not the state of the index after prune: (prune-stats-pairing) while packInfoFromIndex and decidePackAction classify blobs and packs, every update of a blob counter stats.Blobs.X (Used, Unused, Duplicate, Remove, Repack, Repackrm) sits in one basic block with an update of the byte counter stats.Size.X in the same direction, and a term read from a pack's ...Blobs field on the count side is the ...Size field of the same kind (used/unused) on the size side; a pack is inserted into the remove or ignore set only in a block that raises Blobs.Remove and Size.Remove, into the repack set only where Blobs.Repack, Size.Repack, Blobs.Repackrm and Size.Repackrm are raised; the reported numbers of unreferenced packs, packs to repack and packs to remove are len() of the very sets the returned PrunePlan carries and Execute acts on; (keep-only-behind-a-limit) in the loop over the repack candidates — the packs with unused blobs — a pack is kept (Packs.Keep++) only behind the true edge of a comparison with opts.MaxRepackBytes or with the result of opts.MaxUnusedBytes, so without limits every candidate is repacked. Not decided: that after prune the index holds no unreachable blob, no duplicate, no pack without entry and no entry for a missing pack (C09 decides the orderings of that sequence), the totals derived by arithmetic (Total, Remain, RemoveTotal, RemainUnused), sizes reported by the backend listing, and the statistics printed by cmd_prune. Planned as not applicable in DESIGN section 4; claimed at level 'other' for exactly these clauses.",
 		Assumptions: commonAssumptions,
 		Technique:   "static analysis: block-local pairing of field updates, term-kind comparison, provenance of reported set sizes (go/ssa)",
-		Run:         func(c *eng.Ctx) { rulePruneStatsPairing(c) },
+		Run:         func(c *eng.Ctx) { rulePruneStatsPairing(c); ruleKeepOnlyBehindLimit(c) },
 		Controls: []Control{
+			{Name: "large-candidates-always-kept", File: "internal/repository/prune.go",
+				Old: "		case reachedUnusedSizeAfter && packIsLargeEnough:", New: "		case (reachedUnusedSizeAfter || p.unusedSize < p.usedSize) && packIsLargeEnough:", Rule: "keep-only-behind-a-limit"},
 			{Name: "unused-pack-size-counted-as-used", File: "internal/repository/prune.go",
 				Old: "			removePacks.Insert(id)\n			stats.Blobs.Remove += p.unusedBlobs\n			stats.Size.Remove += p.unusedSize\n", New: "			removePacks.Insert(id)\n			stats.Blobs.Remove += p.unusedBlobs\n			stats.Size.Remove += p.usedSize\n", Rule: "prune-stats-pairing"},
 			{Name: "ignored-pack-not-counted", File: "internal/repository/prune.go",
